@@ -13,18 +13,19 @@
       - [C22_roundtrip]: parse2 (fmt2 o a) = Some (erase a) for every well-formed a.  The hypotheses are the
         lexical ones ([wf_comb]: identifiers are identifiers, no type called Type, no bare marker, every trimmed
         comment line is a TL2 comment) and the structural ones ([wf2_file]: fields are named -- except the single
-        anonymous result of a function --, an ignored field is called `_`, magic fits 32 bits and is non-zero for
-        functions, unions are non-empty); lib/checks/C22.py evaluates them on every AST the real parser returns
-        (ops of kind wf): they hold for all of them except the two shapes named below.
+        anonymous result of a function --, a field is marked ignored exactly when its name starts with `_` and is
+        then not optional, magic fits 32 bits and is non-zero for functions, unions are non-empty);
+        lib/checks/C22.py evaluates them on every AST the real parser returns (ops of kind hypotheses): they hold
+        for all of them (the one exception is the degenerate `f#00000001 => <=> ;`, accepted with an empty alias).
       - [C22_idempotent_ignoring_comments]: for an option set that ignores comments (the canonical one)
         fmt2 o (parse2 (fmt2 o a)) = fmt2 o a;  [C22_roundtrip_exact]: a comment-free file comes back exactly, with
         any option set (hence idempotence there too).
       - [C22_lex_fmt2]: the layout never loses, splits, merges or invents a token; the only thing it decides is
         whether the first variant of a union carries its bar ([comb_bar]); [C22_options_same_tokens].
       - the type-expression sub-grammar on its own: [C22_parse_print_typeref], [C22_print_typeref_injective].
-    Refuted: the statement for ASTs with a deprecated field name `_name` ([C22_refuted_dep_name], finding F19: the
-    hypothesis "an ignored field is called `_`" is necessary); historically for one-variant unions
-    ([C22_fmt2_old_single_variant_refuted], finding F8, repaired in /repo by commit 3b6a30bc).
+    Refuted historically, both repaired in /repo and followed by the model: one-variant unions lost their bar
+    ([C22_fmt2_old_single_variant_refuted], finding F8, commit 3b6a30bc); deprecated field names `_name` were printed
+    `_` ([C22_old_dep_name_refuted], finding F19, commit 2301fcd1).
     Partial ([_partial]): with the default options the comments are part of the text; the parser model erases
     them, so idempotence with comments present (CommentBefore attachment) is observed on the Go side by every run
     of the check (print, re-parse, print again: texts compared), not proved. *)
@@ -54,12 +55,14 @@ Theorem C22_idempotent_default_partial : forall f, forallb nocm_comb f = true ->
 Proof. intros f H1 H2 H3. exists f. split; [now apply parse2_fmt2_exact|reflexivity]. Qed.
 Print Assumptions C22_idempotent_default_partial.
 
-Theorem C22_refuted_dep_name :
-  exists c, wf_comb default_options c = true /\ wf_comb canonical_options c = true /\
-    forall o, o = default_options \/ o = canonical_options ->
-      exists c', parse2 (fmt2 o [c]) = Some [c'] /\ c' <> erase_comb c.
-Proof. exact fmt2_refuted_dep_name. Qed.
-Print Assumptions C22_refuted_dep_name.
+(** Historical (explains a regression; finding F19, repaired in /repo by commit 2301fcd1 and followed by the model):
+    TL2Field.Print as it was ([print_field_old]: `_` for every ignored field) printed the deprecated field
+    `_foo:A` like `_:A`, so its name could not come back; the current printer keeps them apart. *)
+Theorem C22_old_dep_name_refuted :
+  exists f f', f_name f <> f_name f' /\ wf_field_core f = true /\ wf_field_core f' = true /\
+    print_field_old f = print_field_old f' /\ print_field f <> print_field f'.
+Proof. exact fmt2_old_dep_name_refuted. Qed.
+Print Assumptions C22_old_dep_name_refuted.
 
 Theorem C22_lex_fmt2 : forall o f, forallb (wf_comb o) f = true -> lex2 (fmt2 o f) = Some (toks_file o f).
 Proof. exact lex_fmt2. Qed.
@@ -183,6 +186,11 @@ Example ex_func_roundtrip : wf_comb default_options ex_func = true /\ wf2_file d
   parse2 (fmt2 default_options [ex_func]) = Some [ex_func].
 Proof. repeat split; vm_compute; reflexivity. Qed.
 (* the structural hypotheses exclude what the parser cannot give back *)
-Example ex_not_wf2 : wf2_file default_options [f19_comb] = false /\
-  wf2_file default_options [Comb [] [] (DFunc (TName [] [102]) 0 [] (DStruct []))] = false.
-Proof. split; vm_compute; reflexivity. Qed.
+Example ex_not_wf2 : wf2_file default_options [Comb [] [] (DFunc (TName [] [102]) 0 [] (DStruct []))] = false /\
+  wf2_field (Field [95; 120] false false [] t_int) = false /\ wf2_field (Field [120] false true [] t_int) = false.
+Proof. repeat split; vm_compute; reflexivity. Qed.
+(* F19 repaired: `a = _foo:int;` comes back with its name *)
+Example ex_f19 : wf_comb default_options f19_comb = true /\ wf2_file default_options [f19_comb] = true /\
+  fmt2 canonical_options [f19_comb] = [97; 32; 61; 32; 95; 102; 111; 111; 58; 105; 110; 116; 59; 10] /\
+  parse2 (fmt2 canonical_options [f19_comb]) = Some [f19_comb].
+Proof. repeat split; vm_compute; reflexivity. Qed.
